@@ -302,7 +302,7 @@ IterVals(it, w) ==
   IF it.k = "list" THEN it.vs
   ELSE LET a == BoundVal(it.a, w)  b == BoundVal(it.b, w)
            s0 == BoundVal(it.s, w)
-           s == IF it.s.k = "num" /\ s0 = 0 THEN (IF a < b THEN 1 ELSE -1) ELSE s0
+           s == IF it.s.k = "num" /\ s0 = 0 THEN 1 ELSE s0     \* LANGUAGE_SPEC: "step: optional increment/decrement (default: 1)"
        IN IF s = 0 THEN <<>> ELSE RangeVals(a, b, s, 2000)
 
 \* abstract effect of one write on its cell, given the values it evaluated to
